@@ -470,6 +470,8 @@ def install(w):
         mm = getattr(it, "mm_lists", {}).get(f.recv.oid)
         if mm is not None:
             mm.touched = True
+            if getattr(mm, "ghost_name", None):
+                it.ghost_bump(mm.ghost_name)   # appends to the output multimap are counted
         if mm is not None and getattr(mm, "elem_spec", None) is None:
             x = args[0]
             if isinstance(x, VAtom):
